@@ -27,7 +27,7 @@ for pid in ids:
         "level_claimed": {
             "category": "proof",
             "text": c["level_text"],
-            "design_ref": "DESIGN.md section 6, " + pid,
+            "design_ref": "DESIGN.md section 5, " + pid,
         },
         "level_note": c["level_note"],
         "technique": c.get("technique", "Lean 4 theorems about a hand-written executable model; model tied to the Rust code by a differential correspondence check (harness + compiled Lean driver)"),
